@@ -1811,6 +1811,9 @@ class SingleItemDecoder(object):
                         raise PyAsn1Error(
                             "Read %s bytes instead of expected %s." % (bytesRead, length))
 
+                if value is noValue:
+                    raise PyAsn1Error('No value encoded at %s' % (tagSet,))
+
                 if LOG:
                    LOG('codec %s yields type %s, value:\n%s\n...' % (
                        concreteDecoder.__class__.__name__, value.__class__.__name__,
